@@ -59,6 +59,10 @@ Variable::~Variable() {
 }
 
 void Variable::set(Value *_data, bool copy) {
+    if (ref != nullptr) {
+        ref->set(_data, copy);
+        return;
+    }
     if (data != nullptr) delete data;
     if (!copy) {
         data = _data;
@@ -108,9 +112,9 @@ Variable *Variable::getReference() {
 }
 
 void Variable::dump(std::ostream &out) const {
-    data->dump(out);
+    (ref == nullptr ? data : ref->data)->dump(out);
 }
 
 bool Variable::load(std::istream &in, Context &ctx) {
-    return data->load(in, ctx);
+    return (ref == nullptr ? data : ref->data)->load(in, ctx);
 }
